@@ -19,6 +19,7 @@ import (
 	"runtime"
 	"runtime/debug"
 	"sort"
+	"strconv"
 	"strings"
 	"sync"
 )
@@ -405,6 +406,18 @@ func NewRequest(method, path, rawQuery string, hdr http.Header, body io.ReadClos
 	}
 	r := &http.Request{Method: method, URL: &url.URL{Path: path, RawQuery: rawQuery}, Proto: "HTTP/1.1", ProtoMajor: 1, ProtoMinor: 1,
 		Header: hdr, Body: body, Host: "example.com", RequestURI: path}
+	// ContentLength as a server (or a direct caller streaming a body) would set it: the header's value,
+	// -1 for a chunked or otherwise unknown length, 0 without a body
+	switch {
+	case strings.Contains(strings.ToLower(hdr.Get("Transfer-Encoding")), "chunked"):
+		r.ContentLength = -1
+	case hdr.Get("Content-Length") != "":
+		if n, err := strconv.ParseInt(strings.TrimSpace(hdr.Get("Content-Length")), 10, 64); err == nil {
+			r.ContentLength = n
+		}
+	case body != http.NoBody:
+		r.ContentLength = -1
+	}
 	return r.WithContext(context.Background())
 }
 
